@@ -103,6 +103,10 @@ def gen_spec(rng, max_world=8, checkpoint=False, clip=None, topo=None, deep=0.1)
                 cap=rng.choice([0.0, 1e-6, 25.0]), damping=rng.choice([0.01, 0.1, 1.0]), F=rng.choice([1, 1, 2]), I=rng.choice([1, 1, 2]),
                 hook=rng.random() < 0.5, acc=rng.choice([1, 1, 2]), strategy=rng.choice(['COMPUTE', 'MEMORY']),
                 model_seed=rng.randrange(10 ** 6), data_seed=rng.randrange(10 ** 6), factor_dir=False, sym=rng.random() < 0.3)
+    if pp > 1 and not is_deep and rng.random() < 0.15:
+        # a pipeline stage without any K-FAC layer (only embeddings / norms in a real model): its ranks register nothing but
+        # must still take part in every collective of the job
+        spec['blocks'][rng.randrange(pp)] = []
     spec['layers'] = [len(kinds_of(spec, st)) for st in range(pp)]
     # bias per layer (a stage may mix layers with and without bias); spec['bias'] stays the summary flag
     if spec['bias'] and rng.random() < 0.4:
@@ -147,6 +151,8 @@ def full_weights(spec, stage):
 
 
 def stage_input_dim(spec, stage):
+    if not spec['blocks'][stage]:
+        return spec['d_in']
     first = spec['blocks'][stage][0]
     return spec['hidden'] if first == 'row' else spec['d_in']
 
@@ -233,7 +239,7 @@ def sharded_rank_fn(spec, tmpdir=None):
         c = topo.get_coord(rank)
         dpg, mpg, ppg = make_groups(topo, rank)
         kinds = [k for k, _, _ in full_weights(spec, c.pipe)]
-        width_last = full_weights(spec, c.pipe)[-1][1].shape[0]
+        width_last = full_weights(spec, c.pipe)[-1][1].shape[0] if kinds else None
 
         def build():
             mods = build_sharded(spec, c.pipe, c.model, mpg)
@@ -263,8 +269,9 @@ def sharded_rank_fn(spec, tmpdir=None):
                 model.zero_grad()
                 for _ in range(spec['acc']):
                     x = torch.randn(spec['batch'], din, generator=gen, dtype=torch.float64)
-                    out = forward_chain(mods, kinds, x, c.model, spec['mp'])
-                    loss_of(out, width_last, spec['batch']).backward()
+                    if mods:   # a stage without K-FAC layers has nothing to train here
+                        out = forward_chain(mods, kinds, x, c.model, spec['mp'])
+                        loss_of(out, width_last, spec['batch']).backward()
                 with simdist.harness():
                     for q in model.parameters():
                         if spec['dp'] > 1:
@@ -376,6 +383,8 @@ def unsharded_rank_fn(spec):
                 loss = 0.0
                 for st, mods in enumerate(chains):
                     x = torch.randn(spec['batch'], stage_input_dim(spec, st), generator=gens[st], dtype=torch.float64)
+                    if not mods:
+                        continue
                     out = forward_chain(mods, ['full'] * len(mods), x)
                     loss = loss + loss_of(out, mods[-1].weight.shape[0], spec['batch'])
                 loss.backward()
